@@ -14,6 +14,9 @@ bug-compatible, of the string surgery in
   * `expressions/function/call.py` `FunctionCall.rebuild`
   * `expressions/select.py`      `Select.rebuild`
   * `expressions/unary.py`       `UnaryExpression.rebuild`
+  * `expressions/binary.py`      `BinaryExpression.rebuild`, `_resolve_right_operand`, `_rebuild_operand`,
+    `_ensure_indent` (not `_format_chained_binary`: `//` / `++` with the operator on its own line are outside
+    `Cst.modelled`)
   * `expressions/function/definition.py` `FunctionDefinition.rebuild` (identifier argument: `_render_output`,
     `_format_colon_split`)
   * `expressions/with_statement.py` `WithStatement.rebuild`, `expressions/assertion.py` `Assertion.rebuild`
@@ -223,6 +226,49 @@ def unSep (between : List Trivia) (gap : Text) (indent : Nat) : Text :=
     (inlineSep := if between.isEmpty then [] else [' ']) (includeIndent := false) (dropBlankIfItems := false)
   r.1 ++ r.2
 
+/-- `_CHAINABLE_OPERATORS` -/
+def chainable (op : Text) : Bool :=
+  ["++", "//", "+", "&&", "||", "->"].any fun s => s.toList == op
+
+/-- `isinstance(expr.right, BinaryExpression) and expr.right.operator.name == expr.operator.name and
+    expr.right.operator_gap_lines` -/
+def Expr.sameOpChain : Expr → Text → Bool
+  | .bin o _ _ ogl _ _ _, op => o == op && ogl != 0
+  | _, _ => false
+
+/-- `_has_leading_comment(expr)` -/
+def hasLeadingComment (before : List Trivia) : Bool :=
+  before.any fun t => match t with
+    | .comment c => !c.inline
+    | _ => false
+
+/-- `_resolve_right_operand`: the indentation of the right operand -/
+def binRightIndent (op : Text) (right : Expr) (indent : Nat) : Nat :=
+  if chainable op then
+    if right.sameOpChain op then indent
+    else if right.absorbable && !hasLeadingComment right.before then indent
+    else indent + 2
+  else indent
+
+/-- `_ensure_indent(text, indent)`: how many spaces are put in front -/
+def ensureIndentPad (text : Text) (indent : Nat) : Nat :=
+  if text.isEmpty then 0
+  else
+    let first := text.takeWhile (· != '\n')
+    if first.isEmpty then 0
+    else
+      let leading := (first.takeWhile (· == ' ')).length
+      if leading < indent then indent - leading else 0
+
+/-- `BinaryExpression.rebuild` (not chained): left, operator and right in the four layouts -/
+def binCore (leftStr rightOwn rightInl op : Text) (ogl rgl indent : Nat) : Text :=
+  if ogl != 0 then
+    if rgl != 0 then
+      leftStr ++ List.replicate ogl '\n' ++ spaces indent ++ op ++ List.replicate rgl '\n' ++ rightOwn
+    else leftStr ++ List.replicate ogl '\n' ++ spaces indent ++ op ++ [' '] ++ rightInl
+  else if rgl != 0 then leftStr ++ [' '] ++ op ++ List.replicate rgl '\n' ++ rightOwn
+  else leftStr ++ [' '] ++ op ++ [' '] ++ rightInl
+
 def kwWith : Text := ['w', 'i', 't', 'h']
 def kwAssert : Text := ['a', 's', 's', 'e', 'r', 't']
 
@@ -351,6 +397,16 @@ def Expr.rebuildA : Expr → Bool → Nat → Bool → Text
     let exprStr := if l.onNewline then expr.rebuildA false (l.indent.getD indent) false else expr.rebuildA false indent true
     let base : Text := if op == ['+', '+'] && !inline then ['\n'] ++ spaces indent ++ op else op
     addTrivia before after (base ++ unSep between gap indent ++ exprStr) indent inline
+  | .bin op left right ogl rgl before after, noAfter, indent, inline =>
+    let after := if noAfter then [] else after
+    let leftStr := left.rebuildA false indent true
+    -- (`Operator.rebuild(indent)` = `" " * indent + name`: the operator carries no trivia)
+    let rightIndent := binRightIndent op right indent
+    -- `_rebuild_operand(right, indent=right_indent, inline=True)`: an operand with leading trivia is rendered
+    -- on its own line; then `_ensure_indent`
+    let rightOwn := right.rebuildA false rightIndent (right.before.isEmpty)
+    let rightOwn := spaces (ensureIndentPad rightOwn rightIndent) ++ rightOwn
+    addTrivia before after (binCore leftStr rightOwn (right.rebuildA false indent true) op ogl rgl indent) indent inline
 /-- `[item.rebuild(indent, inline) for item in items]` -/
 def rebuildAll : List Expr → Nat → Bool → List Text
   | [], _, _ => []
@@ -534,6 +590,14 @@ def attrP : List Text → List FP
   | [a] => [.tok a]
   | a :: rest => .tok a :: .tok ['.'] :: attrP rest
 
+def binCoreP (leftP rightOwn rightInl : List FP) (op : Text) (ogl rgl indent : Nat) : List FP :=
+  if ogl != 0 then
+    if rgl != 0 then
+      leftP ++ [.ws (List.replicate ogl '\n' ++ spaces indent), .tok op, .ws (List.replicate rgl '\n')] ++ rightOwn
+    else leftP ++ [.ws (List.replicate ogl '\n' ++ spaces indent), .tok op, .ws [' ']] ++ rightInl
+  else if rgl != 0 then leftP ++ [.ws [' '], .tok op, .ws (List.replicate rgl '\n')] ++ rightOwn
+  else leftP ++ [.ws [' '], .tok op, .ws [' ']] ++ rightInl
+
 def withBodyPartP (force absorbable : Bool) (inlineBody fullBody : List FP) (indent : Nat) : List FP :=
   if !force && absorbable then .ws [' '] :: stripIndentPrefixP fullBody indent
   else if force || containsNL (concat inlineBody) then .ws ['\n'] :: fullBody
@@ -659,6 +723,13 @@ def Expr.rebuildAP : Expr → Bool → Nat → Bool → List FP
     let exprP := if l.onNewline then expr.rebuildAP false (l.indent.getD indent) false else expr.rebuildAP false indent true
     let base : List FP := if op == ['+', '+'] && !inline then [.ws (['\n'] ++ spaces indent), .tok op] else [.tok op]
     addTriviaP before after (base ++ [.ws (unSep between gap indent)] ++ exprP) indent inline
+  | .bin op left right ogl rgl before after, noAfter, indent, inline =>
+    let after := if noAfter then [] else after
+    let leftP := left.rebuildAP false indent true
+    let rightIndent := binRightIndent op right indent
+    let rightOwn := right.rebuildAP false rightIndent (right.before.isEmpty)
+    let rightOwn := .ws (spaces (ensureIndentPad (concat rightOwn) rightIndent)) :: rightOwn
+    addTriviaP before after (binCoreP leftP rightOwn (right.rebuildAP false indent true) op ogl rgl indent) indent inline
 def rebuildAllP : List Expr → Nat → Bool → List (List FP)
   | [], _, _ => []
   | e :: rest, indent, inline => e.rebuildAP false indent inline :: rebuildAllP rest indent inline
